@@ -183,7 +183,7 @@ func formatInput(v interface{}) (interface{}, error) {
 		return newDecimalBig().SetMantScale(int64(n), 0), nil
 	case int64:
 		return newDecimalBig().SetMantScale(n, 0), nil
-	case int8, int16, uint, uint8, uint16, uint32, uint64:
+	case int8, int16, uint, uint8, uint16, uint32, uint64, uintptr:
 		// Go's other built-in integer types are numbers as well: abs(int16(7)) was 7 but
 		// toInt of it 0, 'x & 3' 0, 'x == 7' false and a uint8 zero truthy
 		return goNumberOf(n), nil
